@@ -96,6 +96,7 @@ def V.typeName : V ν → String
   | .null => "null"
   | .tt | .ff => "bool"
   | .num _ _ => "number"
+  | .numAtomic _ _ => "number"
   | .str _ _ => "string"
   | .color _ _ _ _ => "color"
   | .fn _ => "function"
